@@ -30,7 +30,17 @@ type Block struct {
 	Lvl int     `json:"lvl"`
 	How string  `json:"how"` // builtin | custom1 | custom2 | outline
 	Num string  `json:"num"` // bullet | decimal
+	Sty int     `json:"sty"` // S blocks: number (1-based) of the style in the sheet
 	Tb  Tbl     `json:"tb"`
+}
+
+// Style is one style of the document's style sheet (WordDoc.tla): what it declares
+// about being a heading and what it is based on (k = style k, 0 = nothing,
+// -1 = the default style, -2 = a style that is not defined).
+type Style struct {
+	Decl  string `json:"decl"` // none | builtin | nameL | nameU | outline | bare
+	Lvl   int    `json:"lvl"`
+	Based int    `json:"based"`
 }
 
 // Doc is an abstract document.
@@ -39,6 +49,7 @@ type Doc struct {
 	Body []Block `json:"body"`
 	Hdr  int     `json:"hdr"`
 	Ftr  int     `json:"ftr"`
+	Sheet []Style `json:"sheet"`
 }
 
 // GridCell is the rendering descriptor of one grid position (WordDoc!Grid).
